@@ -196,7 +196,8 @@ Accept(r) == /\ rdpc = "accept" /\ rdarg = r
          refuse == dup \/ (r \in CallReqs /\ ShuttingDown(s1))
      IN /\ CS(s1)
         /\ isnotif' = (IF dup THEN isnotif \cup {r} ELSE isnotif)
-        /\ IF refuse THEN rp' = [rp EXCEPT ![r] = IF dup THEN "dec" ELSE "unindex"] /\ rdpc' = "rpwait"
+        \* a refusal is answered off the read loop (its own goroutine): the reader goes on reading
+        /\ IF refuse THEN rp' = [rp EXCEPT ![r] = IF dup THEN "dec" ELSE "unindex"] /\ rdpc' = "read"
                      ELSE rp' = rp /\ rdpc' = "preempt"
   /\ UNCHANGED <<cpc, ready, outcome, ctxDone, sent, npc, rdarg, unread, dpc, darg, hpc, released, hctx, canpc, clpc, wtpc, wire>>
 
@@ -208,7 +209,7 @@ Preempt(r) == /\ rdpc = "preempt" /\ rdarg = r /\ rdpc' = "enqueue"
 \* CS [acceptRequest] #2: nothing is enqueued while shutting down, not even notifications
 Enqueue(r) == /\ rdpc = "enqueue" /\ rdarg = r
   /\ (IF ShuttingDown(st)
-      THEN /\ CS(st) /\ rp' = [rp EXCEPT ![r] = IF IsCall(r) THEN "unindex" ELSE "dec"] /\ rdpc' = "rpwait"
+      THEN /\ CS(st) /\ rp' = [rp EXCEPT ![r] = IF IsCall(r) THEN "unindex" ELSE "dec"] /\ rdpc' = "read"
            /\ UNCHANGED dpc
       ELSE /\ CS([st EXCEPT !.queue = Append(@, r), !.handlerRunning = TRUE])
            /\ dpc' = (IF st.handlerRunning THEN dpc ELSE "dequeue")
